@@ -138,6 +138,9 @@ def check_string(acc, M, reg, s, cfg, clause="input", case_sensitive=True):
     if not usable:
         if o["get_name"][0] != "exc":
             acc.violation([clause, "get_name", "prefixed-offset-unit-accepted", cls], case, "an error", o["get_name"])
+        # ... and `in` does not call a string a unit that every lookup refuses
+        if o["in"] == ["ok", True]:
+            acc.violation([clause, "in", "string-contained-although-every-lookup-refuses-it", cls], case, "False or the lookup's error", o["in"])
         return
     if len(cands) > 1 and len(usable) != len(cands):
         return  # mixed: implementation may legitimately pick the unusable reading first and raise
